@@ -51,18 +51,22 @@ def roll_mux(window, stride):
                     outer_observer.on_next(i)
                 elif isinstance(i, rs.OnCompletedMux):                    
                     kindex = i.key[0]
+                    n = i.store.get_state(state_n, (kindex, i.key))
+                    first = -(-n // stride)
                     i.store.set_state(state_n, (kindex, i.key), 0)
                     for offset in range(density):
-                        index = i.key[0] * density + offset
+                        index = i.key[0] * density + (first + offset) % density
                         if i.store.get_state(state_w, (index, i.key)) != -1:
                             observer.on_next(i._replace(key=(index, i.key)))
                             i.store.set_state(state_w, (index, i.key), -1)
                     outer_observer.on_next(i)
                 elif isinstance(i, rs.OnErrorMux):
                     kindex = i.key[0]
+                    n = i.store.get_state(state_n, (kindex, i.key))
+                    first = -(-n // stride)
                     i.store.set_state(state_n, (kindex, i.key), 0)
                     for offset in range(density):
-                        index = i.key[0] * density + offset
+                        index = i.key[0] * density + (first + offset) % density
                         if i.store.get_state(state_w, (index, i.key)) != -1:
                             observer.on_next(i._replace(key=(index, i.key)))
                             i.store.set_state(state_w, (index, i.key), -1)
